@@ -176,8 +176,10 @@ CHECKS["C03"] = dict(
           "(5% of the plans cross the 255->0 wrap), one gateway fate per transmitted request (lost; acknowledged after a delay around "
           "0, r, 2r, T-r, T incl. just before/after each; duplicated 2-4x; error status 1..255; wrong sequence number; foreign channel), "
           "unsolicited acknowledgements at scripted times, disconnect requests forcing a reconnect between/within Sends. Each plan runs "
-          "the real Tunnel inside a synctest bubble on an in-memory socket. Non-trivial = history with a retransmission, a failed Send, "
-          "an ignored/duplicate/error acknowledgement or the wrap; distinct by plan."),
+          "the real Tunnel inside a synctest bubble on an in-memory socket. Job real: 1..8 goroutines issuing 1..600 Sends in total "
+          "against a reactive gateway with lost / duplicated / error / wrong-number / foreign-channel acknowledgements on the real "
+          "clock. Non-trivial = history with a retransmission, a failed Send, "
+          "an ignored/duplicate/error acknowledgement, the wrap, or >= 2 contending senders; distinct by plan."),
     level_text=("Sampled fault sequences on a fake clock with an exact reference model of the stop-and-wait sender (transmission times "
                 "t0+k*r, identical retransmissions, sequence number = acknowledged requests of the epoch mod 256, outcome and return "
                 "instant explained by an available matching acknowledgement, timeout at exactly t0+T); concurrent senders are sampled on "
@@ -185,7 +187,8 @@ CHECKS["C03"] = dict(
     level_note="Trusted: the reference sender model in harness/tun/c03_test.go, memsock, the hook constructor VerifNewTunnel (duplicates NewTunnel after socket creation). Exact-timing clauses are decided for one outstanding Send at a time; contention is judged by order/accounting invariants only.",
     technique="rapid model-based testing of generated fault scripts under testing/synctest virtual time (exact reference model); rapid concurrent histories on the real clock with history invariants",
     assumptions=_TUN_ASSUME,
-    jobs=[dict(name="bubble", pkg="./tun", go=GO126, test="TestC03B", shards=(4, 16), checks=(1500, 25000), timeout=(600, 3000))],
+    jobs=[dict(name="bubble", pkg="./tun", go=GO126, test="TestC03B", shards=(4, 16), checks=(1500, 25000), timeout=(600, 3000)),
+          dict(name="real", pkg="./tun", go=GO, test="TestC03R", shards=(4, 16), checks=(40, 600), timeout=(600, 3000))],
 )
 
 CHECKS["C04"] = dict(
